@@ -50,14 +50,17 @@ Definition decode_case (l : list N) : option (cfg * list gop) :=
 
 (* ---- encoders ---- *)
 Definition enc_dir (d : dir) : N := match d with DIn => 0 | DOut => 1 end.
-Definition enc_ev (e : uev) : list N :=
+(* a NotificationReceived is printed with the stream it arrived on (1 + ordinal of the Connection task;
+   the harness puts that ordinal into the payload when the remote sends the notification): `tag` *)
+Definition enc_ev (tag : peer -> N) (e : uev) : list N :=
   match e with
   | UValidate p => [0; p; 0]
   | UOpened p d => [1; p; enc_dir d]
   | UClosed p => [2; p; 0]
   | UFail p e => [3; p; e]
-  | UNotif p => [4; p; 0]
+  | UNotif p => [4; p; tag p]
   end.
+Definition tag_of (x : option N) : N := match x with Some k => k + 1 | None => 0 end.
 Definition enc_call (c : call) : list N :=
   match c with
   | CDial p => [0; p; 0] | COpen p x => [1; p; x] | CForce p => [2; p; 0]
@@ -89,11 +92,13 @@ Definition dump (s : st) : list N :=
   enc_list (fun e : sid * peer => [fst e; snd e]) (sort_by fst (pend s)) ++
   [N.of_nat (length (tasks s)); narm s].
 
-Fixpoint enc_run (r : list (st * list uev * list call)) : list N :=
+(* eager user: the notification of a step was forwarded by the newest Connection task of the peer in the
+   state before the step (Model.notifs_of) *)
+Fixpoint enc_run (pre : st) (r : list (st * list uev * list call)) : list N :=
   match r with
   | [] => []
   | (s, ev, calls) :: t =>
-      1 :: enc_list enc_ev ev ++ enc_list enc_call calls ++ dump s ++ enc_run t
+      1 :: enc_list (enc_ev (fun p => tag_of (lastt pre p))) ev ++ enc_list enc_call calls ++ dump s ++ enc_run s t
   end.
 
 (* all armed timers fire, oldest first: one Timer step per entry of the snapshot *)
@@ -128,7 +133,7 @@ Definition run_ecase (l : list N) : list N :=
   match decode_case l with
   | Some (c, ops) =>
       let '(r, fin) := grun c init ops in
-      1 :: enc_run r ++ (if fin then [] else [2])
+      1 :: enc_run init r ++ (if fin then [] else [2])
   | None => [0]
   end.
 
@@ -150,11 +155,14 @@ Definition ldump (cap : nat) (l : lst) : list N :=
   flat_map (fun p => [b2n (hopen (ls l) p); b2n (hval (ls l) p)]) peers_l ++
   [N.of_nat (Nat.min cap (length (lq l))); b2n (parked cap l)].
 
-Fixpoint enc_lrun (cap : nat) (r : list (lst * list uev * list call)) : list N :=
+(* late-polling user: a notification is handed out only if it arrived on the stream whose sink the handle
+   holds before the poll (Model.sink_is, theorem C11_lazy_notification_in_its_period) *)
+Fixpoint enc_lrun (cap : nat) (pre : lst) (r : list (lst * list uev * list call)) : list N :=
   match r with
   | [] => []
   | (l, ev, calls) :: t =>
-      1 :: enc_list enc_ev ev ++ enc_list enc_call calls ++ ldump cap l ++ enc_lrun cap t
+      1 :: enc_list (enc_ev (fun p => tag_of (hsink (ls pre) p))) ev ++ enc_list enc_call calls ++ ldump cap l ++
+      enc_lrun cap l t
   end.
 
 Definition run_lcase (l : list N) : list N :=
@@ -162,7 +170,7 @@ Definition run_lcase (l : list N) : list N :=
   | Some (c, ops) =>
       let cap := N.to_nat (case_cap l) in
       let '(r, fin) := lrun c cap linit ops in
-      1 :: enc_lrun cap r ++ (if fin then [] else [2])
+      1 :: enc_lrun cap linit r ++ (if fin then [] else [2])
   | None => [0]
   end.
 
@@ -171,14 +179,15 @@ Definition run_case (l : list N) : list N :=
 
 (* ---- decoding a trace ---- *)
 Record pobs := mkPobs { o_ps : option pstate; o_hsI : bool; o_hsO : bool; o_hopen : bool; o_hval : bool }.
-Record sobs := mkSobs { o_ev : list uev; o_calls : list call; o_peers : list pobs; o_pend : list (sid * peer); o_tasks : N; o_narm : N }.
+Record sobs := mkSobs { o_ev : list uev; o_evt : list (uev * N); o_calls : list call; o_peers : list pobs; o_pend : list (sid * peer); o_tasks : N; o_narm : N }.
 
 Definition p_dir : parser dir := let* x := pN in pret (if x =? 0 then DIn else DOut).
-Definition p_ev : parser uev :=
+(* an event together with its third number (for NotificationReceived: the stream tag) *)
+Definition p_ev : parser (uev * N) :=
   let* k := pN in let* p := pN in let* a := pN in
   match k with
-  | 0 => pret (UValidate p) | 1 => pret (UOpened p (if a =? 0 then DIn else DOut))
-  | 2 => pret (UClosed p) | 3 => pret (UFail p a) | 4 => pret (UNotif p) | _ => pfail
+  | 0 => pret (UValidate p, a) | 1 => pret (UOpened p (if a =? 0 then DIn else DOut), a)
+  | 2 => pret (UClosed p, a) | 3 => pret (UFail p a, a) | 4 => pret (UNotif p, a) | _ => pfail
   end.
 Definition p_call : parser call :=
   let* k := pN in let* p := pN in let* a := pN in
@@ -224,7 +233,7 @@ Definition p_sobs : parser sobs :=
   let* pe := plist (let* x := pN in let* q := pN in pret (x, q)) in
   let* t := pN in
   let* na := pN in
-  pret (mkSobs ev calls pp pe t na).
+  pret (mkSobs (map fst ev) ev calls pp pe t na).
 
 (* steps of a trace; the flag tells whether the trace ended with a stuck step *)
 Fixpoint p_steps (fuel : nat) : parser (list sobs * bool) :=
@@ -349,6 +358,18 @@ Fixpoint sinks (cnt : N) (sk : peer -> option N) (l : list uev) : N * (peer -> o
   | _ :: t => sinks cnt sk t
   end.
 
+(* "receives notifications only between the two": a NotificationReceived is handed out only while the user
+   sees a stream of the peer open, and it arrived on THAT stream (periods are numbered in the order of the
+   Opened events; the tag of a notification is 1 + the period it was sent in) *)
+Fixpoint ntags_ok (cnt : N) (sk : peer -> option N) (l : list (uev * N)) : bool :=
+  match l with
+  | [] => true
+  | (UOpened p _, _) :: t => ntags_ok (cnt + 1) (upd sk p (Some cnt)) t
+  | (UClosed p, _) :: t => ntags_ok cnt (upd sk p None) t
+  | (UNotif p, a) :: t => match sk p with Some k => a =? k + 1 | None => false end && ntags_ok cnt sk t
+  | _ :: t => ntags_ok cnt sk t
+  end.
+
 Definition flag (b : bool) (f : N) : N := if b then 0 else f.
 
 Definition check_step (c : cfg) (m : omem) (o : op) (x : sobs) : omem * N :=
@@ -455,8 +476,9 @@ Definition check_step (c : cfg) (m : omem) (o : op) (x : sobs) : omem * N :=
     | _ => m_usink m
     end in
   let '(cnt', sink') := sinks (m_cnt m) (m_sink m) (o_ev x) in
+  let nt := ntags_ok (m_cnt m) (m_sink m) (o_evt x) in
   (mkOmem (o_peers x) opened' gated req cnt' sink' usink',
-   N.lor (flag (iso && acc && cl && ans && send && (leave || rej)) F_GEN)
+   N.lor (flag (iso && acc && cl && ans && send && nt && (leave || rej)) F_GEN)
          (N.lor (flag (leave || negb rej) F_REJ) (N.lor fg owed))).
 
 (* a SleepAll step is a batch of timer events for several peers: only the event grammar and the
@@ -464,7 +486,8 @@ Definition check_step (c : cfg) (m : omem) (o : op) (x : sobs) : omem * N :=
 Definition check_batch (m : omem) (x : sobs) : omem * N :=
   let '(opened', fg) := grammar (m_opened m) (m_gated m) (o_ev x) in
   let '(cnt', sink') := sinks (m_cnt m) (m_sink m) (o_ev x) in
-  (mkOmem (o_peers x) opened' (m_gated m) (m_req m) cnt' sink' (m_usink m), fg).
+  (mkOmem (o_peers x) opened' (m_gated m) (m_req m) cnt' sink' (m_usink m),
+   N.lor fg (flag (ntags_ok (m_cnt m) (m_sink m) (o_evt x)) F_GEN)).
 
 Fixpoint check_steps (c : cfg) (m : omem) (ops : list gop) (tr : list sobs) : N :=
   match ops, tr with
@@ -490,7 +513,7 @@ Definition verdict (case trace : list N) : N :=
 
 (* ---- oracle for lazy-user traces: what the user is handed obeys the same event grammar, the loop is
    never stuck, the channel never holds more than its capacity ---- *)
-Record lobs := mkLobs { lo_ev : list uev; lo_calls : list call; lo_q : N; lo_parked : bool }.
+Record lobs := mkLobs { lo_ev : list uev; lo_evt : list (uev * N); lo_calls : list call; lo_q : N; lo_parked : bool }.
 
 Definition p_lobs : parser lobs :=
   let* ev := plist p_ev in
@@ -498,7 +521,7 @@ Definition p_lobs : parser lobs :=
   let* _ := prep 6 pN in
   let* q := pN in
   let* pk := pBool in
-  pret (mkLobs ev calls q pk).
+  pret (mkLobs (map fst ev) ev calls q pk).
 
 Fixpoint p_lsteps (fuel : nat) : parser (list lobs * bool) :=
   fun l =>
@@ -521,7 +544,7 @@ Fixpoint p_lsteps (fuel : nat) : parser (list lobs * bool) :=
         end
     end.
 
-Fixpoint lcheck (cap : N) (opened gated : peer -> bool) (ops : list lop) (tr : list lobs) : N :=
+Fixpoint lcheck (cap : N) (opened gated : peer -> bool) (cnt : N) (sk : peer -> option N) (ops : list lop) (tr : list lobs) : N :=
   match ops, tr with
   | g :: ops', x :: tr' =>
       let gated' :=
@@ -531,7 +554,8 @@ Fixpoint lcheck (cap : N) (opened gated : peer -> bool) (ops : list lop) (tr : l
         end in
       let gg := fun q => gated q || gated' q in
       let '(opened', fg) := grammar opened gg (lo_ev x) in
-      N.lor (N.lor fg (flag (lo_q x <=? cap) F_GEN)) (lcheck cap opened' gated' ops' tr')
+      let '(cnt', sk') := sinks cnt sk (lo_ev x) in
+      N.lor (N.lor fg (flag ((lo_q x <=? cap) && ntags_ok cnt sk (lo_evt x)) F_GEN)) (lcheck cap opened' gated' cnt' sk' ops' tr')
   | _, _ => 0
   end.
 
@@ -542,7 +566,7 @@ Definition lverdict (case trace : list N) : N :=
       | Some (tr, stuck) =>
           if stuck then F_GEN
           else if negb (Nat.eqb (length tr) (length ops)) then F_GEN
-          else lcheck (case_cap case) (fun _ => false) (fun _ => false) ops tr
+          else lcheck (case_cap case) (fun _ => false) (fun _ => false) 0 (fun _ => None) ops tr
       | None => F_GEN
       end
   | None, [0] => 0
